@@ -9,7 +9,7 @@
   insim <readSize> <maxKey> <thr|N> <hasWake 0|1> <nPipes> <nAgenda> <agenda item>* <main op>*
     agenda item: A<t>:<hex> arrive | U<t>:<hex> unget | T<t>:<e> trigger | S<t>:<when>:<e> schedule
                  X<t>:<p>:<e> tsAppend | Y<t>:<p> tsWrite | W<t>:<p> tsDone | I<t> sigint | G<t>:<n> signal | Z<t> spurious
-    main op:     r<timeout|N> request | d<dt> advance
+    main op:     r<timeout|N> request | d<dt> advance | x leave and re-enter the context
   reply: one token per request (k:<hex> key, p:<hex>,<hex>.. paste, q:<e> i:<e> s:<e> g n E:<Kind> B F) then
          "|" and the final state.
   getkey <hex> <full 0|1>   ->  ok k:<hex> | ok n | E:<Kind>
@@ -116,7 +116,8 @@ def decMainOp (tok : String) : Option MainOp :=
   let kind := (tok.take 1).toString
   let rest := (tok.drop 1).toString
   if kind == "r" then (decOptNat' rest).map MainOp.request
-  else if kind == "d" then rest.toNat?.map MainOp.advance else none
+  else if kind == "d" then rest.toNat?.map MainOp.advance
+  else if tok == "x" then some MainOp.reenter else none
 
 def encFail : Fail → String
   | .py e => "E:" ++ e.name | .blockedForever => "B" | .outOfFuel => "F"
